@@ -155,8 +155,8 @@ func (f *Frame) execCall(cur *blockCur, in ssa.Instruction, cc *ssa.CallCommon, 
 					f.c.lastCallBlock = map[string]*ssa.BasicBlock{}
 				}
 				if sc := cc.StaticCallee(); sc != nil {
-					f.c.lastCall[sc.Name()] = v
-					f.c.lastCallBlock[sc.Name()] = in.Block()
+					f.c.lastCall[stripTypeArgs(sc.Name())] = v
+					f.c.lastCallBlock[stripTypeArgs(sc.Name())] = in.Block()
 				} else if cc.IsInvoke() {
 					f.c.lastCall[cc.Method.Name()] = v
 					f.c.lastCallBlock[cc.Method.Name()] = in.Block()
@@ -177,6 +177,17 @@ func (f *Frame) execCall(cur *blockCur, in ssa.Instruction, cc *ssa.CallCommon, 
 	// builtins
 	if b, ok := cc.Value.(*ssa.Builtin); ok {
 		c.stats.callsBuiltin++
+		if f.callerFrame == nil && (b.Name() == "append" || b.Name() == "copy" || b.Name() == "delete") {
+			f.callAsserts(cur, in, cc, nil, args)
+			if c.callPre == nil {
+				c.callPre = map[string]*State{}
+			}
+			c.callPre[b.Name()] = cur.st
+			if c.callPreArgs == nil {
+				c.callPreArgs = map[string][]Val{}
+			}
+			c.callPreArgs[b.Name()] = args
+		}
 		set(f.execBuiltin(cur, in, b, cc, args, res))
 		return
 	}
@@ -206,6 +217,19 @@ func (f *Frame) execCall(cur *blockCur, in ssa.Instruction, cc *ssa.CallCommon, 
 	}
 	f.callAsserts(cur, in, cc, callee, args)
 	f.countCall(cur, cc, callee)
+	if f.callerFrame == nil {
+		// before(NAME, E) in specifications: the state in which the (latest) call of NAME started
+		if c.callPre == nil {
+			c.callPre = map[string]*State{}
+		}
+		if c.callPreArgs == nil {
+			c.callPreArgs = map[string][]Val{}
+		}
+		for _, n := range callNames(cc, callee) {
+			c.callPre[n] = cur.st
+			c.callPreArgs[n] = args
+		}
+	}
 	if len(c.trackedCalls()) > 0 && f.callerFrame == nil {
 		// the call counters are the verifier's own bookkeeping: whatever the call does to memory, they keep the value
 		// they have now
@@ -261,7 +285,13 @@ func (f *Frame) execCall(cur *blockCur, in ssa.Instruction, cc *ssa.CallCommon, 
 			// Client / Hook methods: the counted effects are unchanged
 			effBefore = cur.st.get(HeapKey{Name: "G_effects", Sort: "Int"})
 		}
+		before := cur.st
 		f.havocAll(cur)
+		if pk := calleePkg(callee); pk != nil && cur.st.kind == stBase {
+			cur.st.keepFrom = before
+			cur.st.keepPkg = pk
+			c.assume("code of an opaque package does not write fields of struct types declared in packages it does not import (no reflection / unsafe writes)")
+		}
 		if effBefore != "" {
 			cur.assume(fmt.Sprintf("(= %s %s)", cur.st.get(HeapKey{Name: "G_effects", Sort: "Int"}), effBefore))
 		}
@@ -909,4 +939,38 @@ func (c *FuncCtx) cannotReachRootPkg(callee *ssa.Function) bool {
 	}
 	c.assume("package " + pk.Pkg.Path() + " does not import " + rp.Pkg.Path() + " (checked): its code cannot perform the calls that effects() counts")
 	return true
+}
+
+func calleePkg(callee *ssa.Function) *types.Package {
+	if callee == nil {
+		return nil
+	}
+	pk := callee.Pkg
+	for p := callee.Parent(); pk == nil && p != nil; p = p.Parent() {
+		pk = p.Pkg
+	}
+	if pk == nil && callee.Origin() != nil {
+		pk = callee.Origin().Pkg
+	}
+	if pk == nil {
+		return nil
+	}
+	return pk.Pkg
+}
+
+// callNames: the short names under which a call can be referred to in specifications.
+func callNames(cc *ssa.CallCommon, callee *ssa.Function) []string {
+	switch {
+	case callee != nil:
+		return []string{stripTypeArgs(callee.Name())}
+	case cc.IsInvoke():
+		return []string{cc.Method.Name()}
+	}
+	if dn := dynCallName(cc); dn != "" {
+		return []string{dn}
+	}
+	if b, ok := cc.Value.(*ssa.Builtin); ok {
+		return []string{b.Name()}
+	}
+	return nil
 }
